@@ -17,8 +17,14 @@
 // Families. ONT, tracked set of N = 1..6 (thorough 9) peers: all subsets; every subset plus one duplicated
 // member; one member repeated 1..N times; every subset plus an outsider; every subset with one signature over
 // another message; every subset with the last signature missing. ONT with two key heights {0,10}: all lists of
-// ≤3 members of (old ∪ new) at message heights 5, 10, 11. NEO (m,n) ∈ {(1,2),(2,3),(3,4)} (+(3,5)) and N3
-// n = 1..4 (+5), m = n-(n-1)/3: ALL sequences of length ≤ n over {member 0..n-1, outsider, bad signature} under
+// ≤3 members of (old ∪ new) at message heights 5, 10, 11. ONT LAYOUT families (listed bookkeepers and SigData are
+// independent ordered lists): quorum-many tracked NON-signers followed by signing outsiders / one outsider repeated /
+// one member repeated / other members; all N listed with first-q, last-q or outsiders signing; an outsider or a
+// duplicate inserted at EVERY position (signing too / not signing / signing instead); SigData reversed, longer
+// (extra outsider, outsider first, repeated, unlisted member), shorter, empty; and for N=4 ALL ordered bookkeeper
+// lists of length ≤4 over {p0,p1,p2,outsider} × ALL SigData lists of length ≤2 over {p0,p2,outsider,bad}
+// (thorough: +second outsider, SigData ≤3). NEO (m,n) ∈ {(1,2),(2,3),(3,4)} (+(3,5)) and N3
+// n = 1..4 (+5), m = n-(n-1)/3: ALL sequences of length ≤ n (n+1 for n ≤ 3; thorough n ≤ 4) over {member 0..n-1, outsider, bad signature} under
 // the tracked script, plus canonical / full lists under a foreign-key script and under the same keys with a
 // lower threshold.
 //
@@ -153,48 +159,79 @@ func stage(res polyenv.Result, sigMarker, proofMarker string) string {
 // ---------------------------------------------------------------------------------------------
 // Ontology
 
+// ontCase: the listed bookkeepers (ordered) and the SigData entries (ordered) are independent lists.
 type ontCase struct {
-	fam     string
-	height  uint32
-	signers []on.OntSigner
+	fam    string
+	height uint32
+	keys   []*polyenv.Acct
+	sigs   []on.OntSig
 }
 
-func label(signers []on.OntSigner, name map[string]string) string {
-	var p []string
-	for _, s := range signers {
-		t := name[s.Key.PubHex]
-		if s.Bad {
+func label(c ontCase, name map[string]string) string {
+	var k, g []string
+	for _, a := range c.keys {
+		k = append(k, name[a.PubHex])
+	}
+	for _, x := range c.sigs {
+		t := name[x.By.PubHex]
+		if x.Bad {
 			t += "!bad"
 		}
-		if s.NoSig {
-			t += "!nosig"
-		}
-		p = append(p, t)
+		g = append(g, t)
 	}
-	return "[" + strings.Join(p, ",") + "]"
+	return "bookkeepers=[" + strings.Join(k, ",") + "] sigdata=[" + strings.Join(g, ",") + "]"
 }
 
-// distinctValid = |{distinct members of tracked with a valid signature in the list}|
-func distinctValid(tracked map[string]bool, signers []on.OntSigner) int {
+// distinctValid = |{distinct members of tracked with a valid signature in SigData}| (by construction; re-checked with
+// real signature verification before a violation is reported).
+func distinctValid(tracked map[string]bool, sigs []on.OntSig) int {
 	seen := map[string]bool{}
-	for _, s := range signers {
-		if !s.Bad && !s.NoSig && tracked[s.Key.PubHex] {
-			seen[s.Key.PubHex] = true
+	for _, s := range sigs {
+		if !s.Bad && tracked[s.By.PubHex] {
+			seen[s.By.PubHex] = true
 		}
 	}
 	return len(seen)
 }
 
-func good(ks ...*polyenv.Acct) []on.OntSigner {
-	out := make([]on.OntSigner, len(ks))
+func signedBy(ks ...*polyenv.Acct) []on.OntSig {
+	out := make([]on.OntSig, len(ks))
 	for i, k := range ks {
-		out[i] = on.OntSigner{Key: k}
+		out[i] = on.OntSig{By: k}
 	}
 	return out
 }
 
-func ontFamilies(P []*polyenv.Acct, F *polyenv.Acct, h uint32) []ontCase {
+func cat(l ...[]*polyenv.Acct) []*polyenv.Acct {
+	var o []*polyenv.Acct
+	for _, x := range l {
+		o = append(o, x...)
+	}
+	return o
+}
+
+func rep(k *polyenv.Acct, n int) []*polyenv.Acct {
+	var o []*polyenv.Acct
+	for i := 0; i < n; i++ {
+		o = append(o, k)
+	}
+	return o
+}
+
+func insertAt(l []*polyenv.Acct, pos int, k *polyenv.Acct) []*polyenv.Acct {
+	o := append([]*polyenv.Acct{}, l[:pos]...)
+	o = append(o, k)
+	return append(o, l[pos:]...)
+}
+
+// paired: every listed key signs, in list order.
+func paired(fam string, h uint32, ks ...*polyenv.Acct) ontCase {
+	return ontCase{fam, h, append([]*polyenv.Acct{}, ks...), signedBy(ks...)}
+}
+
+func ontFamilies(P []*polyenv.Acct, F []*polyenv.Acct, h uint32) []ontCase {
 	n := len(P)
+	q := (n + 2) / 3
 	var cs []ontCase
 	for mask := 0; mask < 1<<n; mask++ {
 		var S []*polyenv.Acct
@@ -203,27 +240,103 @@ func ontFamilies(P []*polyenv.Acct, F *polyenv.Acct, h uint32) []ontCase {
 				S = append(S, P[i])
 			}
 		}
-		cs = append(cs, ontCase{"subset", h, good(S...)})
-		cs = append(cs, ontCase{"subset+outsider", h, append(good(S...), on.OntSigner{Key: F})})
+		cs = append(cs, paired("subset", h, S...))
+		cs = append(cs, paired("subset+outsider", h, cat(S, F[:1])...))
 		for j := range S {
-			cs = append(cs, ontCase{"subset+duplicate", h, append(good(S...), on.OntSigner{Key: S[j]})})
-			b := good(S...)
-			b[j].Bad = true
-			cs = append(cs, ontCase{"subset-one-bad-signature", h, b})
+			cs = append(cs, paired("subset+duplicate", h, cat(S, S[j:j+1])...))
+			b := paired("subset-one-bad-signature", h, S...)
+			b.sigs[j].Bad = true
+			cs = append(cs, b)
 		}
 		if len(S) > 0 {
-			b := good(S...)
-			b[len(b)-1].NoSig = true
-			cs = append(cs, ontCase{"subset-last-signature-missing", h, b})
+			b := paired("subset-last-signature-missing", h, S...)
+			b.sigs = b.sigs[:len(b.sigs)-1]
+			cs = append(cs, b)
 		}
 	}
 	for i := 0; i < n; i++ {
 		for c := 2; c <= n; c++ {
-			var l []on.OntSigner
-			for k := 0; k < c; k++ {
-				l = append(l, on.OntSigner{Key: P[i]})
+			cs = append(cs, paired("one-member-repeated", h, rep(P[i], c)...))
+		}
+	}
+	// LAYOUT families: listed keys and signing keys differ / are ordered adversarially.
+	S := P[:q] // canonical signer set
+	cs = append(cs, ontCase{"layout:nonsigners-then-outsiders", h, cat(S, F[:q]), signedBy(F[:q]...)})
+	cs = append(cs, ontCase{"layout:nonsigners-then-outsider-repeated", h, cat(S, rep(F[0], q)), signedBy(rep(F[0], q)...)})
+	cs = append(cs, ontCase{"layout:outsiders-then-nonsigners", h, cat(F[:q], S), signedBy(F[:q]...)})
+	if n > q {
+		cs = append(cs, ontCase{"layout:nonsigners-then-member-repeated", h, cat(S, rep(P[q], q)), signedBy(rep(P[q], q)...)})
+		cs = append(cs, ontCase{"layout:nonsigners-then-member-repeated", h, cat(S, rep(P[q], q+1)), signedBy(rep(P[q], q+1)...)})
+	}
+	if n >= 2*q {
+		cs = append(cs, ontCase{"layout:nonsigners-then-signers", h, cat(S, P[q:2*q]), signedBy(P[q : 2*q]...)})
+	}
+	cs = append(cs, ontCase{"layout:all-listed-last-q-sign", h, P, signedBy(P[n-q:]...)})
+	cs = append(cs, ontCase{"layout:all-listed-first-q-sign", h, P, signedBy(P[:q]...)})
+	cs = append(cs, ontCase{"layout:all-listed-outsiders-sign", h, P, signedBy(F[:q]...)})
+	for pos := 0; pos <= q; pos++ {
+		withF := insertAt(S, pos, F[0])
+		cs = append(cs, ontCase{"layout:outsider-at-position/not-signing", h, withF, signedBy(S...)})
+		cs = append(cs, ontCase{"layout:outsider-at-position/signing-too", h, withF, signedBy(withF...)})
+		cs = append(cs, ontCase{"layout:outsider-at-position/signing-instead-of-last-member", h, withF, signedBy(cat(S[:q-1], F[:1])...)})
+		cs = append(cs, ontCase{"layout:outsider-at-position/only-outsider-signs-q-times", h, withF, signedBy(rep(F[0], q)...)})
+		for j := range S {
+			withD := insertAt(S, pos, S[j])
+			cs = append(cs, ontCase{"layout:duplicate-at-position/signing-too", h, withD, signedBy(withD...)})
+			cs = append(cs, ontCase{"layout:duplicate-at-position/not-signing", h, withD, signedBy(S...)})
+			cs = append(cs, ontCase{"layout:duplicate-at-position/only-duplicate-signs", h, withD, signedBy(rep(S[j], q+1)...)})
+		}
+	}
+	rev := append([]*polyenv.Acct{}, S...)
+	for i, j := 0, len(rev)-1; i < j; i, j = i+1, j-1 {
+		rev[i], rev[j] = rev[j], rev[i]
+	}
+	cs = append(cs, ontCase{"layout:sigdata-reversed", h, S, signedBy(rev...)})
+	cs = append(cs, ontCase{"layout:sigdata-longer/extra-outsider", h, S, signedBy(cat(S, F[:1])...)})
+	cs = append(cs, ontCase{"layout:sigdata-longer/outsider-first", h, S, signedBy(cat(F[:1], S)...)})
+	cs = append(cs, ontCase{"layout:sigdata-longer/repeated", h, S, signedBy(cat(S, S[:1])...)})
+	cs = append(cs, ontCase{"layout:sigdata-longer/only-outsiders", h, S, signedBy(cat(F[:q], F[:1])...)})
+	if q > 1 {
+		cs = append(cs, ontCase{"layout:sigdata-longer/unlisted-member", h, S[:q-1], signedBy(S...)})
+		cs = append(cs, ontCase{"layout:sigdata-shorter", h, S, signedBy(S[:q-1]...)})
+	}
+	cs = append(cs, ontCase{"layout:sigdata-empty", h, S, nil})
+	return cs
+}
+
+// ontSmallExhaustive: N=4 (quorum 2). ALL ordered bookkeeper lists of length <= 4 over kAlpha combined with ALL
+// ordered SigData lists of length <= maxSig over sAlpha.
+func ontSmallExhaustive(kAlpha []*polyenv.Acct, sAlpha []on.OntSig, maxKeys, maxSig int, h uint32) []ontCase {
+	var keyLists [][]*polyenv.Acct
+	level := [][]*polyenv.Acct{{}}
+	keyLists = append(keyLists, level...)
+	for l := 1; l <= maxKeys; l++ {
+		var nx [][]*polyenv.Acct
+		for _, p := range level {
+			for _, a := range kAlpha {
+				nx = append(nx, append(append([]*polyenv.Acct{}, p...), a))
 			}
-			cs = append(cs, ontCase{"one-member-repeated", h, l})
+		}
+		keyLists = append(keyLists, nx...)
+		level = nx
+	}
+	var sigLists [][]on.OntSig
+	sl := [][]on.OntSig{{}}
+	sigLists = append(sigLists, sl...)
+	for l := 1; l <= maxSig; l++ {
+		var nx [][]on.OntSig
+		for _, p := range sl {
+			for _, a := range sAlpha {
+				nx = append(nx, append(append([]on.OntSig{}, p...), a))
+			}
+		}
+		sigLists = append(sigLists, nx...)
+		sl = nx
+	}
+	var cs []ontCase
+	for _, k := range keyLists {
+		for _, g := range sigLists {
+			cs = append(cs, ontCase{"layout:exhaustive-small", h, k, g})
 		}
 	}
 	return cs
@@ -238,15 +351,30 @@ func runOnt(tag string, chain uint64, d polyenv.Dump, cases []ontCase, tracked f
 	parallel(len(cases), func(i int, s *hsenv.Sim) {
 		c := cases[i]
 		tr := map[string]bool{}
-		for _, k := range tracked(c.height) {
+		trackedKeys := tracked(c.height)
+		for _, k := range trackedKeys {
 			tr[k.PubHex] = true
 		}
-		dv := distinctValid(tr, c.signers)
+		dv := distinctValid(tr, c.sigs)
 		enough := dv*3 >= len(tr)
 		var root [32]byte
 		root[0] = 0xab
-		raw := on.OntCrossMsg(c.height, root, c.signers)
-		lab := label(c.signers, name)
+		raw, hash, sigData := on.OntCrossMsgLayout(c.height, root, c.keys, c.sigs)
+		lab := label(c, name)
+		if !enough {
+			// confirm the count by verifying every SigData entry against every tracked key with real crypto
+			seen := map[string]bool{}
+			for _, sg := range sigData {
+				for _, k := range trackedKeys {
+					if on.OntVerify(k, hash, sg) {
+						seen[k.PubHex] = true
+					}
+				}
+			}
+			if len(seen) != dv {
+				r.HarnessError("ont: constructed count %d != verified count %d for %s", dv, len(seen), lab)
+			}
+		}
 		detail := func(path string, extra string) map[string]any {
 			return map[string]any{"router": "ont", "path": path, "tracked_set_size": len(tr), "required": (len(tr) + 2) / 3,
 				"distinct_valid_tracked_signers": dv, "signer_list": lab, "msg_height": c.height, "family": c.fam, "config": tag,
@@ -261,7 +389,7 @@ func runOnt(tag string, chain uint64, d polyenv.Dump, cases []ontCase, tracked f
 		if res.OK && !stored {
 			r.HarnessError("ont syncCrossChainMsg ok but nothing stored (%s %s)", tag, lab)
 		}
-		verdict(acc, enough, "ont", "SyncCrossChainMsg", c.fam, dv, len(c.signers), detail("header_sync.SyncCrossChainMsg", ""))
+		verdict(acc, enough, "ont", "SyncCrossChainMsg", c.fam, dv, len(c.keys), detail("header_sync.SyncCrossChainMsg", ""))
 		// (b) cross_chain_manager.ImportOuterTransfer
 		s.Load(d)
 		res2 := s.Exec(on.ImportTx(chain, c.height, []byte{1, 2, 3}, raw), 10, 1000)
@@ -270,8 +398,8 @@ func runOnt(tag string, chain uint64, d polyenv.Dump, cases []ontCase, tracked f
 		if strings.HasPrefix(st, "other") || st == "ok" {
 			r.HarnessError("ont import: unexpected outcome %s (%s %s)", st, tag, lab)
 		}
-		verdict(st == "sig-accepted", enough, "ont", "MakeDepositProposal", c.fam, dv, len(c.signers), detail("cross_chain_manager.ImportOuterTransfer", st))
-		if c.fam == "subset" && dv == len(c.signers) && dv == (len(tr)+2)/3 && !acc {
+		verdict(st == "sig-accepted", enough, "ont", "MakeDepositProposal", c.fam, dv, len(c.keys), detail("cross_chain_manager.ImportOuterTransfer", st))
+		if c.fam == "subset" && dv == len(c.keys) && dv == (len(tr)+2)/3 && !acc {
 			canonicalRejected("ont canonical message (exactly ceil(N/3) distinct members) rejected: %s %s: %v", tag, lab, res.Err)
 		}
 	})
@@ -306,14 +434,17 @@ func rankOf(d map[string]any) int {
 
 func ontPart() {
 	maxN := r.QT(6, 9)
-	F := polyenv.Key(199)
+	F := polyenv.KeysFrom(196, 4)
 	for n := 1; n <= maxN; n++ {
 		if r.Expired() {
 			r.Capped(fmt.Sprintf("ont N>=%d", n))
 			return
 		}
 		P := polyenv.KeysFrom(100, n)
-		name := map[string]string{F.PubHex: "outsider"}
+		name := map[string]string{}
+		for i, k := range F {
+			name[k.PubHex] = fmt.Sprintf("outsider%d", i)
+		}
 		for i, k := range P {
 			name[k.PubHex] = fmt.Sprintf("p%d", i)
 		}
@@ -324,6 +455,16 @@ func ontPart() {
 		d := w.Dump()
 		w.Close()
 		cases := ontFamilies(P, F, 5)
+		if n == 4 {
+			bad := on.OntSig{By: P[0], Bad: true}
+			if r.Quick() {
+				cases = append(cases, ontSmallExhaustive([]*polyenv.Acct{P[0], P[1], P[2], F[0]},
+					[]on.OntSig{{By: P[0]}, {By: P[2]}, {By: F[0]}, bad}, 4, 2, 5)...)
+			} else {
+				cases = append(cases, ontSmallExhaustive([]*polyenv.Acct{P[0], P[1], P[2], F[0], F[1]},
+					[]on.OntSig{{By: P[0]}, {By: P[2]}, {By: F[0]}, {By: F[1]}, bad}, 4, 3, 5)...)
+			}
+		}
 		runOnt(fmt.Sprintf("N=%d", n), chain, d, cases, func(uint32) []*polyenv.Acct { return P }, name)
 		r.Note(fmt.Sprintf("ont_cases_N%d", n), len(cases))
 	}
@@ -338,7 +479,7 @@ func ontPart() {
 	w := baseWorld()
 	must(on.RegisterSideChain(w, vals, chain, utils.ONT_ROUTER, "ont2", []byte{1}, nil), "register ont2")
 	mustOK(w.Exec(on.GenesisTx(vals, chain, on.OntHeader(0, old, 1, nil)), 5, 500), "ont2 genesis")
-	mustOK(w.Exec(on.HeadersTx(chain, on.OntHeader(10, nw, 2, good(old[0], old[1]))), 6, 600), "ont2 key header 10")
+	mustOK(w.Exec(on.HeadersTx(chain, on.OntHeader(10, nw, 2, []on.OntSigner{{Key: old[0]}, {Key: old[1]}})), 6, 600), "ont2 key header 10")
 	d := w.Dump()
 	w.Close()
 	all := append(append([]*polyenv.Acct{}, old...), nw...)
@@ -352,7 +493,7 @@ func ontPart() {
 				}
 			}
 			if len(S) <= 3 {
-				cases = append(cases, ontCase{fmt.Sprintf("two-key-heights/h=%d", h), h, good(S...)})
+				cases = append(cases, paired(fmt.Sprintf("two-key-heights/h=%d", h), h, S...))
 			}
 		}
 	}
@@ -431,7 +572,11 @@ type neoCase struct {
 
 func neoCases(m, n int) []neoCase {
 	var cs []neoCase
-	for _, l := range seqs(n, n) {
+	maxLen := n // also one signature MORE than keys where affordable
+	if n <= 3 || (r.Thorough() && n <= 4) {
+		maxLen = n + 1
+	}
+	for _, l := range seqs(n, maxLen) {
 		cs = append(cs, neoCase{"tracked", l})
 	}
 	for _, by := range []string{"otherkeys", "lowthreshold"} {
